@@ -80,6 +80,8 @@ def one(item, tier, all_checks, stable):
             res["error"] = "patch does not apply: " + r.stdout[-300:]
             return res
         passed = run_tests(tree)
+        if not stable <= passed:  # tests/unit/functions/test_fdd.py::test_EFDD_mpe[cor] draws unseeded random data: retry once
+            passed |= run_tests(tree)
         res["stable_tests_still_pass"] = stable <= passed
         res["stable_tests_lost"] = sorted(stable - passed)[:5]
         if item["demo"]:
